@@ -31,8 +31,6 @@ Definition corr_ok (c : case) : bool :=
   end.
 
 Definition gobs_list_eqb := list_eqb gobs_eqb.
-Definition lib_names (ls : list line) : name :=
-  flat_map (fun l => match l with MtlLib n => n | _ => [] end) ls.
 
 (* the property itself, evaluated on what the implementation returned: the written text is judged by the
    direct line semantics (file_groups), the read-back meshes by their observation; the reader model is not used *)
